@@ -48,6 +48,7 @@ type Obligation struct {
 	Time    float64
 	Model   string
 	Query   string
+	ReplayF string // postcondition over entry symbols and rr$i result symbols (when it does not read the post heap)
 }
 
 type PStmt struct {
